@@ -110,14 +110,16 @@ impl<A: Alg> System for Sys<A> {
         }
         if self.dirty {
             let mut f = 0u32;
-            if A::dirty_item(&A::elem(0, &mut f)).is_none() {
+            if A::dirty_item_at(&A::elem(0, &mut f), 0).is_none() {
                 return vec![];
             }
             for xs in &vecs {
                 v.push(Act::FromSliceDirty(xs.clone()));
             }
-            for e in 0..k {
-                v.push(Act::NewDirty(e as u8));
+            if A::fillable() {
+                for e in 0..k {
+                    v.push(Act::NewDirty(e as u8));
+                }
             }
             return v;
         }
@@ -128,8 +130,10 @@ impl<A: Alg> System for Sys<A> {
             for xs in &vecs {
                 v.push(Act::FromSlice(xs.clone()));
             }
-            for e in 0..k {
-                v.push(Act::New(e as u8));
+            if A::fillable() {
+                for e in 0..k {
+                    v.push(Act::New(e as u8));
+                }
             }
         }
         v
@@ -140,12 +144,12 @@ impl<A: Alg> System for Sys<A> {
         let (tree, model) = match a {
             Act::FromSlice(xs) => {
                 let model: Vec<A::E> = xs.iter().map(|&i| A::elem(i as usize, &mut fresh)).collect();
-                let items: Vec<A::T> = model.iter().map(A::item).collect();
+                let items: Vec<A::T> = model.iter().enumerate().map(|(i, e)| A::item_at(e, i)).collect();
                 (Segtree::<A::T, A::M>::from_slice(&items), model)
             }
             Act::FromIter(xs) => {
                 let model: Vec<A::E> = xs.iter().map(|&i| A::elem(i as usize, &mut fresh)).collect();
-                let items: Vec<A::T> = model.iter().map(A::item).collect();
+                let items: Vec<A::T> = model.iter().enumerate().map(|(i, e)| A::item_at(e, i)).collect();
                 (Segtree::<A::T, A::M>::from_iter(items.into_iter()), model)
             }
             Act::New(e) => {
@@ -155,7 +159,7 @@ impl<A: Alg> System for Sys<A> {
             }
             Act::FromSliceDirty(xs) => {
                 let model: Vec<A::E> = xs.iter().map(|&i| A::elem(i as usize, &mut fresh)).collect();
-                let items: Vec<A::T> = model.iter().map(|e| A::dirty_item(e).unwrap()).collect();
+                let items: Vec<A::T> = model.iter().enumerate().map(|(i, e)| A::dirty_item_at(e, i).unwrap()).collect();
                 (Segtree::<A::T, A::M>::from_slice(&items), model)
             }
             Act::NewDirty(e) => {
@@ -213,21 +217,21 @@ impl<A: Alg> System for Sys<A> {
             Act::FromSlice(_) | Act::FromIter(_) | Act::New(_) | Act::FromSliceDirty(_) | Act::NewDirty(_) => Err("constructor inside a history".into()),
             Act::SetDirty(i, e) => {
                 let el = A::elem(*e as usize, &mut s.fresh);
-                s.tree.set(*i as usize, A::dirty_item(&el).unwrap());
+                s.tree.set(*i as usize, A::dirty_item_at(&el, *i as usize).unwrap());
                 s.model[*i as usize] = el;
                 Ok(0)
             }
             Act::Set(i, e) => {
                 let el = A::elem(*e as usize, &mut s.fresh);
-                s.tree.set(*i as usize, A::item(&el));
+                s.tree.set(*i as usize, A::item_at(&el, *i as usize));
                 s.model[*i as usize] = el;
                 Ok(0)
             }
             Act::Modify(l, r, m) => {
-                let md = &A::mods()[*m as usize];
+                let md = &A::modifier(*m as usize, *l as usize);
                 s.tree.modify(*l as usize, *r as usize, md);
-                for x in s.model[*l as usize..=*r as usize].iter_mut() {
-                    A::apply(x, md);
+                for (k, x) in s.model[*l as usize..=*r as usize].iter_mut().enumerate() {
+                    A::apply_at(x, md, k);
                 }
                 Ok(0)
             }
@@ -392,6 +396,7 @@ fn replay_part(label: &str, n: usize, mode: Mode, hist: &[Value]) -> Result<(), 
             "MaxAdd<i64>" => god!(AlgMaxAdd),
             "SumAdd<i64>" => god!(AlgSumAdd),
             "Flip" => god!(AlgFlip),
+            "AP" => god!(AlgAp),
             "Comb<MinAdd,MaxAdd>" => god!(Comb<AlgMinAdd, AlgMaxAdd>),
             "Comb<Comb<MinAdd,MaxAdd>,SumAdd>" => god!(Comb<Comb<AlgMinAdd, AlgMaxAdd>, AlgSumAdd>),
             _ => {
@@ -415,6 +420,7 @@ fn replay_part(label: &str, n: usize, mode: Mode, hist: &[Value]) -> Result<(), 
         "Comb<Comb<MinAdd,MaxAdd>,SumAdd>" => go!(Comb<Comb<AlgMinAdd, AlgMaxAdd>, AlgSumAdd>),
         "Comb<Sum<Z3>,Comb<Min,Max>>" => go!(Comb<AlgSumZ3, Comb<AlgMinU8, AlgMaxU8>>),
         "Flip" => go!(AlgFlip),
+        "AP" => go!(AlgAp),
         "Comb<W,W>" => go!(Comb<AlgW, AlgW>),
         "Comb<Flip,Comb<Flip,Flip>>" => go!(Comb<AlgFlip, Comb<AlgFlip, AlgFlip>>),
         "MinAdd@MAX" => go!(AlgMinAddExt),
@@ -648,6 +654,11 @@ fn main() {
     for n in 1..=(if quick { 4 } else { 5 }) {
         parts.push(run_part::<Comb<AlgW, AlgW>>("Comb<W,W>", n, mode, None, true, wall));
     }
+    // a lazy item whose push treats the two children differently (arithmetic progression)
+    let ap: &[(usize, Option<usize>)] = if quick { &[(1, None), (2, None), (3, Some(4)), (4, Some(3)), (5, Some(2))] } else { &[(1, None), (2, None), (3, None), (4, Some(4)), (5, Some(3)), (6, Some(3))] };
+    for &(n, d) in ap {
+        parts.push(run_part::<AlgAp>("AP", n, mode, d, true, wall));
+    }
     for n in 1..=(if quick { 3 } else { 4 }) {
         parts.push(run_part::<Comb<AlgFlip, Comb<AlgFlip, AlgFlip>>>("Comb<Flip,Comb<Flip,Flip>>", n, mode, None, true, wall));
     }
@@ -667,6 +678,7 @@ fn main() {
         parts.push(run_part::<AlgA3>("A3+stale-tags", n, mode, Some(d), true, wall));
         parts.push(run_part::<AlgFr>("Fr+stale-tags", n, mode, Some(d), true, wall));
         parts.push(run_part::<AlgFlip>("Flip+stale-tags", n, mode, Some(d), true, wall));
+        parts.push(run_part::<AlgAp>("AP+stale-tags", n, mode, Some(d), true, wall));
         parts.push(run_part::<AlgSumAddZ4>("SumAdd<Z4>+stale-tags", n, mode, Some(d), true, wall));
         parts.push(run_part::<AlgMinAdd>("MinAdd<i64>+stale-tags", n, mode, Some(d), true, wall));
         parts.push(run_part::<AlgMaxAdd>("MaxAdd<i64>+stale-tags", n, mode, Some(d), true, wall));
